@@ -5,6 +5,8 @@ import (
 	"sync"
 	"sync/atomic"
 	"time"
+
+	"github.com/openfga/openfga/internal/verifhook"
 )
 
 // keyPlan manages the statistics for a single key and makes decisions about its resolvers.
@@ -46,6 +48,10 @@ func (kp *keyPlan) getOrCreateStats(plan *PlanConfig) *ThompsonStats {
 // Select implements the Thompson Sampling decision rule.
 func (kp *keyPlan) Select(resolvers map[string]*PlanConfig) *PlanConfig {
 	kp.touch() // Mark this key as recently used.
+
+	if forced, ok := verifhook.ForcedPlan(kp, resolvers); ok {
+		return forced
+	}
 
 	rng := kp.planner.rngPool.Get().(*rand.Rand)
 	defer kp.planner.rngPool.Put(rng)
